@@ -33,7 +33,7 @@ impl IrValue {
         match self {
             Native(x) => {
                 let bytes = x.to_bytes_le();
-                if n as u32 > F::NUM_BITS.div_ceil(8) || bytes[n..].iter().any(|&b| b != 0) {
+                if n > F::NUM_BITS.div_ceil(8) as usize || bytes[n..].iter().any(|&b| b != 0) {
                     Err(Error::Other(format!("cannot convert {x} to Bytes({n})")))
                 } else {
                     Ok(bytes[..n].to_vec().into())
@@ -87,6 +87,12 @@ pub fn into_bytes_incircuit(
     use CircuitValue::*;
     match input {
         Native(x) => {
+            // Same bound as off-circuit (`assigned_to_le_bytes` panics beyond it).
+            if n > F::NUM_BITS.div_ceil(8) as usize {
+                return Err(Error::Other(format!(
+                    "cannot convert a Native value to Bytes({n})"
+                )));
+            }
             let bytes = std_lib.assigned_to_le_bytes(layouter, x, Some(n))?;
             Ok(bytes.to_vec().into())
         }
